@@ -113,7 +113,7 @@ theorem pushAll_spec (labels : List (Option Nat)) :
       obtain ⟨h1, h2⟩ := ih _ _ h' hres'
       refine ⟨h1, fun k => ?_⟩
       rw [h2 k]
-      simp only [List.mem_append, List.mem_singleton, List.mem_cons, List.not_mem_nil, or_false]
+      simp only [List.mem_append, List.mem_cons, List.not_mem_nil, or_false]
       constructor
       · rintro ((a | a) | a)
         · exact Or.inl a
